@@ -123,26 +123,42 @@ def rule_tarjan(P):
     if loop is None or not isinstance(loop.target, ast.Name):
         raise AnalysisError("scc_decomposition.dfs: successor loop not found")
     w = loop.target.id
-    ups = [n for n in walk_live(loop) if isinstance(n, ast.Assign) and isinstance(n.targets[0], ast.Subscript) and norm(n.targets[0]) == f"lowest[{v}]"]
+    # names of the low-link table and of the on-stack set, read off the code
+    roots0 = [n for n in dfs.node.body if isinstance(n, ast.If) and W.pos(n) > W.end_pos(loop) and isinstance(n.test, ast.Compare)]
+    low = None
+    for n in roots0:
+        for side in (n.test.left, n.test.comparators[0]):
+            if isinstance(side, ast.Subscript) and isinstance(side.value, ast.Name) and norm(side.slice) == v:
+                low = side.value.id
+    if low is None:
+        raise AnalysisError("scc_decomposition.dfs: low-link table not found")
+    ups = [n for n in walk_live(loop) if isinstance(n, ast.Assign) and isinstance(n.targets[0], ast.Subscript) and norm(n.targets[0]) == f"{low}[{v}]"]
     if len(ups) < 2:
         raise AnalysisError("scc_decomposition.dfs: low-link updates not found")
     for n in ups:
-        ok = isinstance(n.value, ast.Call) and W.call_name(n.value) == "min" and sorted(norm(a) for a in n.value.args) == sorted([f"lowest[{v}]", f"lowest[{w}]"])
+        ok = isinstance(n.value, ast.Call) and W.call_name(n.value) == "min" and sorted(norm(a) for a in n.value.args) == sorted([f"{low}[{v}]", f"{low}[{w}]"])
         r.add(dfs, n, ok, "" if ok else f"`{first_line(n)}` can RAISE the low-link of {v} (it forgets a smaller value inherited from an earlier "
               f"child): nested cycles visited in the right order are split into several components")
     # on-stack test for the non-tree case
-    non_tree = [n for n in ups if any(ft.pol and norm(ft.test) == f"{w} in trail" for ft in W.guard_facts(n))]
-    tree = [n for n in ups if any(ft.pol and "lowest.get" in norm(ft.test) and "is None" in norm(ft.test) for ft in W.guard_facts(n))]
+    non_tree = [n for n in ups if any(ft.pol and isinstance(ft.test, ast.Compare) and isinstance(ft.test.ops[0], ast.In) and norm(ft.test.left) == w
+                                      and isinstance(ft.test.comparators[0], ast.Name) for ft in W.guard_facts(n))]
+    tree = [n for n in ups if any(ft.pol and f"{low}.get" in norm(ft.test) and "is None" in norm(ft.test) or
+                                  ft.pol and norm(ft.test) == f"{w} not in {low}" for ft in W.guard_facts(n))]
     ok = len(non_tree) == 1 and len(tree) == 1
     r.add(dfs, loop, ok, "" if ok else "low-links must be updated for unvisited successors (after the recursive call) and for successors on the stack only",
           construct="dfs: tree-edge / on-stack cases")
     roots = [n for n in dfs.node.body if isinstance(n, ast.If) and W.pos(n) > W.end_pos(loop)]
-    ok = len(roots) == 1 and norm(roots[0].test) in (f"lowest[{v}] == num", f"num == lowest[{v}]")
+    numname = None
+    for n in walk_live(dfs.node):
+        if isinstance(n, ast.Assign) and isinstance(n.targets[0], ast.Name) and isinstance(n.value, ast.Name) and W.pos(n) < W.pos(loop):
+            numname = n.targets[0].id
+    ok = len(roots) == 1 and norm(roots[0].test) in (f"{low}[{v}] == {numname}", f"{numname} == {low}[{v}]")
     r.add(dfs, roots[0] if roots else dfs.node, ok, "" if ok else "root test must be lowest[v] == num after the successor loop")
     if roots:
         ys = [n for n in walk_live(roots[0]) if isinstance(n, ast.Yield)]
         brk = [n for n in walk_live(roots[0]) if isinstance(n, ast.If) and isinstance(n.body[0], ast.Break)]
-        ok = len(ys) == 1 and len(brk) == 1 and norm(brk[0].test) in (f"w == {v}", f"{v} == w")
+        ok = len(ys) == 1 and len(brk) == 1 and isinstance(brk[0].test, ast.Compare) and isinstance(brk[0].test.ops[0], ast.Eq) \
+            and v in (norm(brk[0].test.left), norm(brk[0].test.comparators[0]))
         r.add(dfs, ys[0] if ys else roots[0], ok, "" if ok else "the component must be popped from the stack down to v inclusive")
     r.min_instances = 5
     return r
@@ -186,7 +202,7 @@ def rule_det_key(P):
         raise AnalysisError("determinize: loop over _powerarcs(P) not found")
     lp = loops[0]
     a, q, w = (norm(e) for e in lp.target.elts)
-    tests = [n for n in walk_live(lp) if isinstance(n, ast.Compare) and isinstance(n.ops[0], (ast.In, ast.NotIn)) and "visited" in norm(n.comparators[0])]
+    tests = [n for n in walk_live(lp) if isinstance(n, ast.Compare) and isinstance(n.ops[0], (ast.In, ast.NotIn)) and isinstance(n.comparators[0], ast.Name)]
     arcs = [n for n in walk_live(lp) if isinstance(n, ast.Call) and W.call_name(n) == "add_arc"]
     ok = len(tests) == 1 and norm(tests[0].left) == q and len(arcs) == 1 and norm(arcs[0].args[2]) == q and norm(arcs[0].args[1]) == a \
         and norm(arcs[0].args[3]) == w and not W.guard_facts(arcs[0])[0:0]
